@@ -337,6 +337,8 @@ def op_submit(op, oid, ctx):
     spec = op["task"]
     tid = op.get("tid") or oid
     fname = op.get("fut") or oid
+    if spec.get("dir") == "$RES":
+        spec = dict(spec, dir=RESDIR)
     exp = lv_tasks.expected(spec, tid)
     log("submit_call", oid=oid, ex=op["ex"], exid=id(ex), fut=fname, tid=tid, spec=spec, exp=exp,
         pickler=_pickler_name())
@@ -544,6 +546,20 @@ def op_census(op, oid, ctx):
         gc.collect()
 
 
+def op_ns(op, oid, ctx):
+    """Processes of the namespace other than init, this driver and its trackers,
+    after a bounded settle (SIGKILL delivery to non-children is asynchronous)."""
+    me = os.getpid()
+    deadline = time.monotonic() + op.get("grace", 3.0)
+    while True:
+        ns = ns_pids()
+        mine = {c["pid"] for c in children_census() if "resource_tracker" in c["cmd"]}
+        rest = [x for x in ns if x[0] not in (1, me) and x[0] not in mine and x[1] != "Z"]
+        if not rest or time.monotonic() > deadline:
+            return {"ns": ns, "rest": rest}
+        time.sleep(0.02)
+
+
 def op_set_pickler(op, oid, ctx):
     from loky import set_loky_pickler
 
@@ -710,6 +726,7 @@ OPS = {
     "keeplists": op_keeplists,
     "setenv": op_setenv,
     "tracker": op_tracker,
+    "ns": op_ns,
 }
 
 
